@@ -19,6 +19,19 @@ def run(prop, tier, seed, keys):
     if not r.ok:
         raise common.ToolError("GossipFetch.tla properties fail on the specification:\n" + r.out[-1500:])
     cases = r.printed("CASE")
+    # the first answer that is not "right" ends the connection of the scripted peer: what the script says after it is never played
+    seen, canon = set(), []
+    for c in cases:
+        sc = []
+        for a in c["script"]:
+            sc.append(a)
+            if a != "right":
+                break
+        k = (c["ann"], tuple(sc))
+        if k not in seen:
+            seen.add(k)
+            canon.append({"ann": c["ann"], "script": sc})
+    enumerated, cases = len(cases), canon
     if tier == "thorough":
         cases = [c for i, c in enumerate(cases) if len(c["script"]) < 4 or (i + seed) % 3 == 0]
     cp = os.path.join(d, "gossipfetch_cases.ndjson")
@@ -40,9 +53,9 @@ def run(prop, tier, seed, keys):
         if f["key"] in keys or f["key"] == "node_panic":
             f["case"] = {"mode": "gossip_fetch", "nblocks": nb, "case": f["case"]}
             fails.append(f)
-    cov = {"model_states": r.distinct, "scripted_peers": len(cases), "replayed": rep["distinct"], "requests_observed": rep["evaluations"],
+    cov = {"model_states": r.distinct, "scripted_peers_enumerated": enumerated, "scripted_peers": len(cases), "replayed": rep["distinct"], "requests_observed": rep["evaluations"],
            "rule": f"GossipFetch.tla ({nb} missing blocks): OnlyAnnounced, Genuine, AllFetched by TLC; every scripted peer (announced range x answer script over right / other "
-                   "number / forged payload / empty) played against a real running node over loopback TCP, then an honest peer"}
+                   "number / forged payload / empty / no answer at all until the node's get_block_timeout passes; distinct up to the first answer that ends the connection) played against a real running node over loopback TCP, then an honest peer"}
     return cov, fails
 
 
